@@ -32,10 +32,10 @@ def jobs(tier):
     for posts,nh in ([(4,16),(4,64)] if q else [(4,16),(4,64),(5,16),(5,64)]):
         J.append(Job('f1-curve-%d-n%d'%(posts,nh),'C01/f1_render.c',defs=['-DWHICH=1','-DPOSTS=%d'%posts,'-DNHALF=%d'%nh],cuts={'floor1.c':['render_line']},unwind=66,object_bits=10,witnesses=['two or more lines','a post skipped','unused']+(['tail filled'] if nh>32 else []),
             functions=['floor1_inverse2','floor1_look'],models=['M-libc qsort (insertion sort)','render_line cut: records its calls (its own job: f1-line)'],bounds='%d posts at distinct symbolic positions < 32, block half size %d, symbolic amplitudes/flags, mult 1..4'%(posts,nh),weight=2))
-    for ty,c0,c1 in ([(0,1,3),(1,3,2),(2,1,3)] if q else [(0,1,3),(1,3,2),(2,1,3),(0,3,0),(1,2,1),(2,3,3),(1,0,0)]):
-        J.append(Job('K-res-type%d-c%d%d'%(ty,c0,c1),'C01/k_res.c',defs=['-DTYPE=%d'%ty,'-DCAS0=%d'%c0,'-DCAS1=%d'%c1],unwind=5,unwindset=[('ov_ilog',None,34),('harness',r'i<pv',6),('_01inverse',r'i<partvals',6),('res2_inverse',r'i<partvals',6)],object_bits=10,
+    for ty,c0,c1,ch2 in ([(0,1,3,0),(1,3,2,0),(2,1,3,0),(1,1,1,1)] if q else [(0,1,3,0),(1,3,2,0),(2,1,3,0),(1,1,1,1),(0,3,0,0),(1,2,1,0),(2,3,3,0),(1,0,0,0),(0,1,3,1)]):
+        J.append(Job('K-res-type%d-c%d%d%s'%(ty,c0,c1,'-2ch' if ch2 else ''),'C01/k_res.c',defs=['-DTYPE=%d'%ty,'-DCAS0=%d'%c0,'-DCAS1=%d'%c1]+(['-DCH2'] if ch2 else []),unwind=5,unwindset=[('ov_ilog',None,34),('harness',r'i<pv',6),('_01inverse',r'i<partvals',6),('res2_inverse',r'i<partvals',6)],object_bits=10,
             witnesses=(['nothing to decode'] if c0+c1==0 else ['ended by end of packet','nothing to decode']+(['two passes over three or more partitions'] if max(c0,c1)>=2 else [])),models=['classification word / partition decoders cut: recorded calls (K-bookvec decides the decoders)','_vorbis_block_alloc = malloc'],
-            functions=['res0_look','res%d_inverse'%ty,'_01inverse' if ty<2 else 'res2_inverse','res0_free_look'],bounds='2 classifications with cascades (%d,%d), 2 words per class codeword, partition size 2, %s, begin/end 0..10'%(c0,c1,'2 channels of 4 samples' if ty==2 else '1 channel of 6 samples'),weight=3))
+            functions=['res0_look','res%d_inverse'%ty,'_01inverse' if ty<2 else 'res2_inverse','res0_free_look'],bounds='2 classifications with cascades (%d,%d), 2 words per class codeword, partition size 2, %s, begin/end 0..10'%(c0,c1,'2 channels of 4 samples' if (ty==2 or ch2) else '1 channel of 6 samples'),weight=3))
     for ne,lm in ([(4,3)] if q else [(4,3),(5,4),(6,3)]):
         J.append(Job('huff-words-%d-%d'%(ne,lm),'C01/huff_words.c',defs=['-DNE=%d'%ne,'-DLMAX=%d'%lm],unwind=ne+2,unwindset=[('_make_words',r'j<33',34),('_make_words',r'i<33',34),('_make_words',r'for\(j=length;j>0;j--\)',lm+2),('_make_words',r'j<l\[i\]',lm+2),('unrev',None,lm+1),('ov_ilog',None,34)],checks=['leak'],
             witnesses=['single-entry book','accepted with three or more entries','rejected'],functions=['_make_words'],models=[],bounds='%d entries, codeword lengths 0..%d, dense and sparse layouts'%(ne,lm),weight=2))
@@ -43,7 +43,7 @@ def jobs(tier):
         J.append(Job('huff-decode-b%d'%bk,'C01/huff_decode.c',defs=['-DBOOK=%d'%bk],unwind=18,unwindset=[('_make_words',r'j<33',34),('_make_words',r'i<33',34),('vorbis_book_init_decode',r'i<tabn',257),('vorbis_book_init_decode',r'j<\(1<<',33),('ov_ilog',None,34),('decode_packed_entry_number',r'while\(lok<0',33)],checks=['leak'],object_bits=10,
             witnesses=['entry decoded','end of packet']+(['codeword longer than the first-level table'] if bk in (2,5,7) else []),functions=['vorbis_book_init_decode','vorbis_book_decode','decode_packed_entry_number','vorbis_book_clear','_make_words'],
             models=['M-bitpack (libogg read side, validated against libogg.a)','M-libc qsort (insertion sort)'],bounds='concrete length list %d, every packet of 0..4 bytes, first codeword at bit 0..7'%bk,weight=2))
-    J+=other('C02',tier,lambda j:j.name.startswith('K-synth') or j.name=='P-quantvals' or j.name.startswith('K-floor0'))
+    J+=other('C02',tier,lambda j:j.name.startswith('K-synth') or j.name=='P-quantvals' or j.name.startswith('K-floor0'),fn='_jobs0')   # _jobs0: the C02 jobs proper (C02.jobs itself borrows kernels from this file)
     J+=blk(tier,lambda j:j.name.startswith('blockin-step'))[:2 if q else 99]
     return J
 CLAIM={'text':'Differential (translation-validation style) bounded checks of the decoder integer/table kernels against references transcribed from the Vorbis I specification: ilog, float32_unpack, lookup1_values, Huffman codeword assignment and tree validation (_make_words), Huffman decode through the sorted-word tables for 6-8 concrete books and every packet (huff-decode), VQ lookup-table construction (types 1/2, sequence, sparse), placement of VQ vectors by the four vector decoders (residue 0/1/2 layouts, floor 0), residue partition/classification order over passes (K-res), floor-1 neighbour tables, packet decode order, amplitude unwrap (7.2.4 step 1), curve synthesis (step 2) and line rasteriser (render_point, render_line), floor-0 coefficient unwrap and amplitude scale (6.2.2), the audio packet prologue (mode, window flags), and the per-block sample count / overlap placement of the accumulator.',
